@@ -628,8 +628,8 @@ DIAMOND = [(0, 2), (1, 3), (3, 1), (2, 0)]
 
 
 @st.composite
-def s_poly_shape(draw, offs):
-    kind = draw(st.sampled_from(["box", "box", "tri", "tri", "L", "hole", "diamond", "two_row", "two_col", "two_diag"]))
+def s_poly_shape(draw, offs, kinds=("box", "box", "tri", "tri", "L", "hole", "diamond", "two_row", "two_col", "two_diag")):
+    kind = draw(st.sampled_from(list(kinds)))
     multi = kind.startswith("two")
     if multi:
         # two-part query: parts in the same tile row / column with whole tiles between them, or diagonal
@@ -773,6 +773,7 @@ def _lonlat_common(a, b):
 
 CRS_PAIRS = [(a, b) for a in CRS_POOL for b in CRS_POOL if a != b and _lonlat_common(a, b) is not None]
 X_OFFS = [["t", 0.3], ["t", -0.3], ["t", 0.1], ["t", -0.1], ["t", 0.5], ["t", 0.0], ["t", 0.02], ["t", -0.02]]
+X_OFFS_WIDE = [["t", 0.002], ["t", -0.002], ["t", 0.0005], ["t", -0.0005], ["t", 0.3], ["t", -0.3], ["t", 0.02], ["t", -0.02]]
 
 
 @functools.lru_cache(maxsize=None)
@@ -789,11 +790,50 @@ def _tr(a, b):
     return Transformer.from_crs(_pp(a), _pp(b), always_xy=True)
 
 
+# grid CRSs whose parallels/meridians are curved in the plane, with the longitude of their central axis: there a vertex in
+# the middle of a query's bounding-box edge sticks out of the box spanned by the four projected corners
+TIP_GRIDS = {"3577": 132.0, "3035": 10.0, "32633": 15.0, "32755": 147.0}
+TINY_OFFS = [["t", 0.0005], ["t", -0.0005], ["t", 0.002], ["t", -0.002], ["t", 0.0005], ["t", 0.002]]
+
+
+@st.composite
+def s_xcrs_tip(draw):
+    """Diamond straddling the central axis of a curved projection, tips a hair inside/outside a tile row of large tiles."""
+    gl = draw(st.sampled_from(sorted(TIP_GRIDS)))
+    ql = draw(st.sampled_from([b for a, b in CRS_PAIRS if a == gl and b not in TIP_GRIDS]))
+    box = _lonlat_common(gl, ql)
+    n = draw(st.sampled_from([1000, 2000, 4000]))
+    r = draw(st.sampled_from([25.0, 50.0, 100.0]))
+    o = st.sampled_from(X_OFFS)
+    tiny = st.sampled_from(TINY_OFFS)
+    ring = [[[0, draw(o)], [2, draw(o)]], [[1, draw(o)], [3, draw(tiny)]], [[3, draw(o)], [1, draw(o)]], [[2, draw(o)], [0, draw(tiny)]]]
+    return {
+        "glabel": gl, "qlabel": ql,
+        "gspell": draw(st.sampled_from(CHEAP_SPELL)),
+        "qspell": draw(st.sampled_from(["proj", "odc"] if ql == "sinu" else CHEAP_SPELL)),
+        "anchor": [(TIP_GRIDS[gl] - box[0]) / (box[2] - box[0]), draw(st.floats(0.2, 0.8))],
+        "shape": [n, n], "mag": [r, r],
+        "sgn": [draw(st.sampled_from([1.0, -1.0])), draw(st.sampled_from([-1.0, 1.0]))],
+        "flipx": draw(st.booleans()), "flipy": draw(st.booleans()),
+        "cell": [draw(_index()), draw(_index())],
+        "frac": [draw(st.sampled_from([0.0, 0.1, 0.3, 0.37])), draw(st.floats(0.0, 1.0))],
+        "poly": {"kind": "diamond", "rings": [ring], "multi": False, "shift": [-1, draw(st.sampled_from([-1, 0]))]},
+        "flavour": "tip",
+    }
+
+
 @st.composite
 def s_xcrs(draw):
+    if draw(st.integers(0, 4)) == 0:
+        return draw(s_xcrs_tip())
     gl, ql = draw(st.sampled_from(CRS_PAIRS))
     geographic = CRS_POOL[gl][0] == "geographic"
     ny, nx = draw(_side()), draw(_side())
+    wide = draw(st.integers(0, 2)) == 0
+    if wide:
+        # production-sized tiles (thousands of pixels, tens to hundreds of km): the curvature of the other CRS across
+        # one query is then a visible fraction of a tile; vertices sit a hair inside/outside tile edges
+        ny = nx = draw(st.sampled_from([250, 1000] if geographic else [1000, 3200, 4000, 2048]))
     if geographic:
         mag = st.one_of(st.sampled_from([0.5, 7.3, 10.0, 1 / 3.0]), st.floats(0.5, 10.0))
     else:
@@ -804,13 +844,13 @@ def s_xcrs(draw):
         "glabel": gl, "qlabel": ql,
         "gspell": draw(st.sampled_from(["proj", "odc"] if gl == "sinu" else CHEAP_SPELL)),
         "qspell": draw(st.sampled_from(["proj", "odc"] if ql == "sinu" else CHEAP_SPELL + ["wkt2"])),
-        "anchor": [draw(st.floats(0.1, 0.9)), draw(st.floats(0.1, 0.9))],
+        "anchor": [draw(st.sampled_from([0.5, 0.45, 0.55])) if wide and draw(st.booleans()) else draw(st.floats(0.1, 0.9)), draw(st.floats(0.1, 0.9))],
         "shape": [ny, nx], "mag": [mx, my],
         "sgn": [draw(st.sampled_from([1.0, -1.0])), draw(st.sampled_from([-1.0, 1.0]))],
         "flipx": draw(st.booleans()), "flipy": draw(st.booleans()),
         "cell": [draw(_index()), draw(_index())],
         "frac": [draw(st.floats(0.0, 1.0)), draw(st.floats(0.0, 1.0))],
-        "poly": draw(s_poly_shape(X_OFFS)),
+        "poly": draw(s_poly_shape(X_OFFS_WIDE, ("tri", "tri", "diamond", "diamond", "box", "L")) if wide else s_poly_shape(X_OFFS)),
     }
 
 
@@ -920,6 +960,25 @@ def o_xcrs(case, T):
             )
         else:
             namb += 1
+    # vertices are unambiguous under either reading of the edges: a tile holding a projected vertex well inside its
+    # footprint overlaps the query with positive area
+    nvert = 0
+    vm = 2e-8 + 1e-6 * unit + 64 * math.ulp(W.maxabs)
+    for ring in rings_s:
+        for vx, vy in ring[:-1]:
+            for tidx, r in W.tiles.items():
+                if r[0] + vm < vx < r[2] - vm and r[1] + vm < vy < r[3] - vm:
+                    nvert += 1
+                    require(
+                        tidx in got,
+                        "tiles_from_geopolygon(%s polygon in %s) misses tile %r of the %s grid although query vertex (%.6f, %.6f) (grid CRS) lies inside its footprint %r; returned %r",
+                        case["poly"]["kind"], ql, tidx, gl, vx, vy, r, sorted(got)[:9],
+                    )
+    T.cls("vertex_tiles_required", nvert)
+    if max(ny, nx) >= 1000:
+        T.cls("production_sized_tiles")
+    if case.get("flavour") == "tip":
+        T.cls("tip_on_central_axis")
     extra = got - set(W.tiles)
     require(not extra, "tiles_from_geopolygon returns tiles far from the polygon: %r", sorted(extra)[:8])
     T.cls("grid_%s" % CRS_POOL[gl][0])
